@@ -258,7 +258,7 @@ def classify_events(events):
     return roles
 
 
-def run_scenario(m, scratch, rep, name, separate_meta, cache, tr, collect):
+def run_scenario(m, scratch, rep, name, separate_meta, cache, tr, collect, pre_g=False):
     from . import fnmod
     spec_f = SCENARIOS[name]["F"]
     spec_g = dict(spec_f, id=2)
@@ -267,6 +267,8 @@ def run_scenario(m, scratch, rep, name, separate_meta, cache, tr, collect):
     def reference_outcome():
         shutil.rmtree(root, ignore_errors=True)
         fresh_env(m, root, separate_meta, cache)
+        if pre_g:
+            one_call(fnmod.n1, spec_g, tr, "n1")        # another function already memoized the same result
         FAULT.reset(root, record=True)
         out, ran = one_call(fnmod.n0, spec_f, tr, "n0")
         events = list(FAULT.events)
@@ -291,6 +293,8 @@ def run_scenario(m, scratch, rep, name, separate_meta, cache, tr, collect):
         n_points += 1
         shutil.rmtree(root, ignore_errors=True)
         fresh_env(m, root, separate_meta, cache)
+        if pre_g:
+            one_call(fnmod.n1, spec_g, tr, "n1")
         FAULT.reset(root, at=i, kind=kind, cut=cfn)
         crashed = False
         first = None
@@ -299,7 +303,7 @@ def run_scenario(m, scratch, rep, name, separate_meta, cache, tr, collect):
         except CrashNow:
             crashed = True
         FAULT.reset(None)
-        replay = {"scenario": name, "separate_metadata_path": separate_meta, "cache": cache,
+        replay = {"scenario": name + ("+same result already memoized by another function" if pre_g else ""), "separate_metadata_path": separate_meta, "cache": cache,
                   "fault": {"event_index": i, "event": events[i] if i < len(events) else None, "kind": kind, "cut": cname},
                   "recorded_events": events}
         if not crashed and first is not None and first != ref:
@@ -320,13 +324,13 @@ def run_scenario(m, scratch, rep, name, separate_meta, cache, tr, collect):
                               "after the fault, recovery call %d (%s) gave %r instead of %r" % (j, "F" if j < 2 else "G", out, want), replay)
                 break
         else:
-            for j in (1, 3):
+            for j in ((1, 2, 3) if pre_g else (1, 3)):
                 if seen[j][1] != 0:
                     rep.violation("C08:recomputes-forever:%s" % sigbase,
-                                  "after the fault, the second call of %s still ran the body (the store never recovers)" % ("F" if j == 1 else "G"), replay)
+                                  "after the fault, the %s call of %s still ran the body (the store never recovers)" % ("first" if j == 2 else "second", "F" if j == 1 else "G"), replay)
                     break
         # model prediction (plain value scenario only): which prim count does this point correspond to?
-        if name == "value" and collect is not None:
+        if name == "value" and collect is not None and not pre_g:
             prims_before = 0
             for k in range(min(i, len(events))):
                 if roles[k] in (1, 3):
@@ -370,6 +374,11 @@ def run(tier, seed):
             n, ne = run_scenario(m, scratch, rep, name, sm, ca, tr, collect if not ca else None)
             total += n
             nevents["%s/%s/%s" % (name, "sepmeta" if sm else "shared", "cache" if ca else "nocache")] = ne
+        # the result is already in the store, memoized by another function, when the faulted write happens
+        for sm in ((False,) if tier == "quick" else (False, True)):
+            n, ne = run_scenario(m, scratch, rep, "value", sm, False, tr, None, pre_g=True)
+            total += n
+            nevents["value+shared-result/%s/nocache" % ("sepmeta" if sm else "shared")] = ne
         FAULT.reset(None)
         terms = [c[0] for c in collect]
         try:
